@@ -216,11 +216,31 @@ func (w *World) opPrune(n *Node, s *Step) {
 	pool := sortedKeys(n.remembered)
 	hs := w.pickHashes(pool, s.Picks)
 	if len(hs) == 0 {
+		// nothing is remembered: the call with an empty list (nil / empty non-nil)
+		// must be a no-op as well
+		hs = nil
+		if s.Arg == 1 {
+			hs = []H{}
+		}
+		w.stats.Reach["prune_empty_list"]++
+		err, _ := guard(func() error { return n.mp.Prune(hs) })
+		if err != nil {
+			w.violate(n, "C09", "prune-err", fmt.Sprintf("Prune of an empty list failed: %v", err))
+			return
+		}
+		w.checkNode(n, w.blocks[n.at].Post, "prune-empty")
 		return
 	}
-	// sometimes include a hash that is not cached (must be ignored)
+	// sometimes include a hash that is not cached (must be ignored): a fresh one,
+	// or a live leaf this node does not track
 	if s.Arg == 1 {
 		hs = append(hs, H{0xaa, 0xbb, 1})
+		for _, h := range w.blocks[n.at].Post.Live() {
+			if !n.remembered[h] {
+				hs = append(hs, h)
+				break
+			}
+		}
 	}
 	hs = padH(hs)
 	w.stats.Events++
